@@ -33,6 +33,8 @@ def seeded_table():
                 cells.append('%s: %s' % (pid, ('caught — `%s`' % v.get('signature')) if v.get('caught') else 'MISSED (exit %s)' % v.get('exit')))
             else:
                 cells.append('%s: %s' % (pid, v))
+        if x.get('obsolete'):
+            cells.append('OBSOLETE: ' + x['obsolete'].replace('|', '/'))
         conf = '%s / %s→%s' % (x.get('tests', '?'), x.get('demo_unpatched_exit', '?'), x.get('demo_patched_exit', '?'))
         rows.append('| %s | %s | %s | %s | %s |' % (n, x['property'], (x.get('title') or x.get('error') or '').replace('|', '/'), conf, '; '.join(cells)))
     return '\n'.join(rows)
